@@ -211,10 +211,11 @@ fn check_text(t: &mut Tally, text: &str) {
         }
     }
     if !line_fault {
-        // built twice: list variables set as a whole, and pushed line by line
+        // built twice: list variables set as a whole (on an entry from new()), and pushed line by
+        // line (on an entry from Default::default())
         let r = guard(|| {
             let mut s = Summary::new();
-            let mut p = Summary::new();
+            let mut p = Summary::default();
             for (i, v) in &values {
                 summary_set(&mut s, *i, v);
                 match v {
